@@ -281,8 +281,7 @@ pub fn nests_of_depth(d: usize) -> Vec<Nest> {
 }
 
 /// The sublanguage on which no listed finding can be triggered: no jump or return out of a try, no
-/// abrupt exit from a catch that has a finally pending, no local declared in a finally block that can
-/// be entered by an exception.
+/// abrupt exit from a catch that has a finally pending.
 fn trigger_free(m: &ModelRun) -> bool {
     m.events.is_empty()
 }
@@ -291,7 +290,6 @@ pub const TRIGGERS: &[(&str, &str)] = &[
     ("jump_out_of_try", "KF-C08-01"),
     ("return_out_of_nested_try", "KF-C08-02"),
     ("abrupt_exit_from_catch_with_finally", "KF-C08-03"),
-    ("finally_on_exception_path", "KF-C08-04"),
 ];
 
 pub fn attribute(active: &[Finding], m: &ModelRun, obs: &proto::SnippetResult) -> Option<String> {
